@@ -24,7 +24,7 @@ def run(ctx):
     for e, to in [('c08_add', 300), ('c08_sub', 300), ('c08_neg', 300), ('c08_cmp', 300)] + [('c08_mul_any', 600), ('c08_div_any', 1200), ('c08_mod_any', 1200)]:
         if ctx.only and e not in ctx.only:
             continue
-        jobs.append(lambda e=e, to=to: V.run_entry(ctx, m, e, 10, timeout=to, bounds='all 2^130 operand pairs (64-bit payload x signedness, both operands)'))
+        jobs.append(lambda e=e, to=to: V.run_entry(ctx, m, e, 10, timeout=to, cdefs=('VP_DIV_BY_IDENTITY',), bounds='all 2^130 operand pairs (64-bit payload x signedness, both operands)'))
     V.run_parallel(jobs)
 
 def replay(ctx, js):
